@@ -260,6 +260,7 @@ static Plan plan_C11(Rng& r, const std::string&) {
 	Pool pool = make_pool(r, 5, r.chance(1, 8) ? 3 : 2);
 	int ncl = r.range(1, 4); std::vector<std::vector<Step>> progs;
 	for (int c = 0; c < ncl; ++c) {
+		if (r.chance(1, 3)) { progs.push_back(fa_history_program(r, c, ncl, r.range(6, 22))); continue; }     // finite-automaton handles
 		PG g(r, c); int len = r.range(6, 22);
 		TAOpts o; o.max_states = r.range(1, 5);
 		g.load(gen_ta(r, pool, o), 0);
